@@ -18,6 +18,7 @@ package db
 //@   modifies nothing
 //@   ensures result1 != nil ==> result0 == nil
 //@   ensures result1 == nil ==> result0 != nil
+//@   ensures plainErr(result1)
 
 //@ func NewTx
 //@   props C07 C04 C14
@@ -26,17 +27,20 @@ package db
 //@   set lastTx := ite(result1 == nil, result0, old(lastTx))
 //@   ensures[opened] result1 == nil ==> result0 != nil && fresh(result0) && txState(result0) == 0 && undoCnt(result0) == 0 && lastTx == result0
 //@   ensures[failed] result1 != nil ==> result0 == nil && lastTx == old(lastTx)
+//@   ensures[storage-error] plainErr(result1)
 
 //@ interface github.com/agglayer/aggkit/db/types.Txer.Exec (self, query, args)
 //@   requires self != nil
 //@   modifies stmtFail
 //@   ensures stmtFail == old(stmtFail) + ite(result1 == nil, 0, 1)
+//@   ensures plainErr(result1)
 
 //@ interface github.com/agglayer/aggkit/db/types.Txer.Commit (self)
 //@   requires self != nil
 //@   modifies txState(self)
 //@   ensures result == nil ==> txState(self) == 1
 //@   ensures result != nil ==> txState(self) == old(txState(self))
+//@   ensures plainErr(result)
 
 // a rollback runs the registered callbacks; the only callbacks in the module are the append-only tree's
 // (they write AppendOnlyTree.lastIndex and nothing else: checked on the closure itself)
